@@ -24,6 +24,7 @@ import (
 	"verif/harness/streams"
 	"verif/mc"
 	"verif/report"
+	"verif/rt/vsync"
 )
 
 type runner struct {
@@ -74,6 +75,8 @@ func main() {
 	// the code under test (ygot) allocates heavily and the live heap is small: with the default GC target the
 	// collector runs continuously and the workers spend most of their time in stop-the-world hand-shakes
 	debug.SetGCPercent(1000)
+	// a lock left held by the code under test must fail the sequential harnesses, not hang them
+	vsync.LeakWatch = true
 	flag.Set("logtostderr", "false")
 	flag.Set("stderrthreshold", "FATAL")
 	child := flag.Bool("child", false, "run one shard and dump the partial report")
